@@ -4,6 +4,7 @@ import (
 	"fmt"
 	"os"
 	"strconv"
+	"strings"
 	"time"
 
 	"github.com/frankkopp/FrankyGo/verif/refchess"
@@ -55,4 +56,17 @@ func refSelfTest(run *vl.Run) bool {
 	}
 	run.Set("reference_selftest", "refchess reproduced published perft numbers (6 positions, depth 3-4)")
 	return ok
+}
+
+// panicKind: a short class for a recovered panic message (index out of range, nil pointer, other)
+func panicKind(msg string) string {
+	switch {
+	case strings.Contains(msg, "index out of range"):
+		return "index-out-of-range"
+	case strings.Contains(msg, "nil pointer"):
+		return "nil-pointer"
+	case strings.Contains(msg, "slice bounds"):
+		return "slice-bounds"
+	}
+	return "other"
 }
